@@ -243,7 +243,8 @@ def cnEnter (cfg : Cfg) (n : N) (w : Who) : N × Bool :=
     let l := n.links.length
     let n := { n with links := n.links ++ [({ who := w } : Link)], backlog := n.backlog ++ [l] }
     let n := n.setCn w { n.cn w with st := .connecting, pend := some l }
-    ((n.push (.writable w)).push .accept, false)
+    -- connect() wakes the listening socket; the connector then registers its write event
+    ((n.push .accept).push (.writable w), false)
   else cnFail cfg n w
 
 /-- `TcpConnector::stop()` -/
@@ -268,6 +269,8 @@ def svSend (n : N) (t : Nat) (_d : List Byte) : N × Bool :=
   match svLookup n t with
   | none => (n, false)
   | some l =>
+      -- inside its disconnected callback the connection has already given up its descriptor
+      if n.busy = some (l, true) then (n, false) else
       -- an empty payload still arms the write event (send-complete) but nothing arrives
       -- after shutdown(SHUT_WR) / towards a closed peer the write fails: dropped with a warning, no write event
       (if (n.link l).cOpen ∧ ¬ (n.link l).sShut then (if _d = [] then n else n.push (.toC l _d)).push (.sentS l) else n, true)
@@ -325,7 +328,8 @@ def svShut (n : N) (t : Nat) : N × Bool :=
   | none => (n, false)
   | some l =>
       let k := n.link l
-      if k.sOpen ∧ ¬ k.sShut then
+      if n.busy = some (l, true) then (n, false)
+      else if k.sOpen ∧ ¬ k.sShut then
         let n := n.setLink l { k with sShut := true }
         (if k.cOpen then n.push (.eofC l) else n, true)
       else (n, true)
